@@ -18,6 +18,11 @@ Theorem C06_reject_break_outside_loop : forall f s,
 Proof. exact reject_break_outside_loop. Qed.
 Print Assumptions C06_reject_break_outside_loop.
 
+Theorem C06_reject_return_outside_routine : forall f s,
+  ctype s = TT_RETURN -> p_in_routine s = false -> p_command (S f) s = PErr (cline s).
+Proof. exact reject_return_outside_routine. Qed.
+Print Assumptions C06_reject_return_outside_routine.
+
 Theorem C06_reject_assign_to_macro : forall f s,
   ctype s = TT_ASSIGN -> ctype (next s) = TT_NAME -> sym_is_macro (next s) (ctext (next s)) = true ->
   p_command (S f) s = PErr (cline (next s)).
